@@ -14,23 +14,28 @@ const mergeDirName = "-merge"
 
 // Merge 立即执行 Merge 过程
 func (db *DB) Merge() error {
+	// 方法仅部分逻辑需加锁, 不应 defer
+	// 状态校验与 merge 标识的设置必须处于同一临界区, 避免并发 merge 同时通过校验
+	db.mu.Lock()
+
 	// 校验数据是否为空
 	if db.activeFile == nil {
+		db.mu.Unlock()
 		return nil
 	}
 
 	// 校验是否满足 merge 条件
 	if err := db.mergeCheck(); err != nil {
+		db.mu.Unlock()
 		return err
 	}
-
-	// 方法仅部分逻辑需加锁, 不应 defer
-	db.mu.Lock()
 
 	// 更新 merge 状态
 	db.isMerging = true
 	defer func() {
+		db.mu.Lock()
 		db.isMerging = false
+		db.mu.Unlock()
 	}()
 
 	// 当前活跃文件同样加入参与 merge 的集合
@@ -48,6 +53,11 @@ func (db *DB) Merge() error {
 	for _, file := range db.olderFiles {
 		mergeFiles = append(mergeFiles, file)
 	}
+
+	if db.hintPos == nil {
+		db.hintPos = make([]byte, datafile.MaxLogRecordPosSize)
+	}
+	hintPos := db.hintPos
 
 	// 由于采用操作临时目录方式, 故允许提前释放锁
 	db.mu.Unlock()
@@ -85,10 +95,6 @@ func (db *DB) Merge() error {
 	if err != nil {
 		return err
 	}
-	if db.hintPos == nil {
-		db.hintPos = make([]byte, datafile.MaxLogRecordPosSize)
-	}
-
 	// 执行 merge
 	// 依次读取每个数据文件, 解析得到日志记录并写入新 merge 目录
 	for _, dataFile := range mergeFiles {
@@ -111,7 +117,7 @@ func (db *DB) Merge() error {
 					return err
 				}
 				// merge的过程中顺便将构建索引所需信息写入 Hint 文件中, 用于后续重启时加速构建索引
-				if err := hintFile.WriteHintRecord(logRecord.Key, db.hintPos, pos); err != nil {
+				if err := hintFile.WriteHintRecord(logRecord.Key, hintPos, pos); err != nil {
 					return err
 				}
 			}
